@@ -57,7 +57,8 @@ steady_clock::time_point steady_clock::now() noexcept { return time_point(durati
 #endif
 #include <ctime>
 // the seed of exponential_backoff's generator (std::time(0)) is an input like any other
-extern "C" time_t time(time_t* t) noexcept { time_t v = (time_t)vk_next_input('s'); if (t) *t = v; return v; }
+extern "C" long long vk_time_fixed __attribute__((weak));
+extern "C" time_t time(time_t* t) noexcept { time_t v = &vk_time_fixed ? (time_t)vk_time_fixed : (time_t)vk_next_input('s'); if (t) *t = v; return v; }
 #include <exception>
 #include <boost/assert/source_location.hpp>
 // -fno-exceptions build: Boost calls these instead of throwing; reaching one is reported like an abort
